@@ -52,7 +52,8 @@ class GridEmb:
 class AdaptiveAdapter(Adapter):
     name = "PhystAdaptive"
 
-    def __init__(self, grids, spelling: int = 0, wscale=(1, 1)):
+    def __init__(self, grids, spelling: int = 0, wscale=(1, 1), stats_cls=None):
+        self.stats_cls = stats_cls      # when every entry of the config uses this position class, statistics can be compared
         self.grids = grids          # list of GridEmb, one per axis (used cyclically)
         self.spelling = spelling
         self.wnum, self.wden = wscale
@@ -234,6 +235,19 @@ class AdaptiveAdapter(Adapter):
                 grids = [self._g(rec["proj"] - 1)]
             try:
                 self._cmp(real[i], rec, view, bad, det, str(i), [self._g(ax["grid"] - 1) for ax in rec["axes"]])
+                gh = fmap(post["ghost"])[i]
+                if "stats" in view and self.stats_cls and len(rec["axes"]) == 1 and gh and ("untracked",) not in gh and self.wden == 1:
+                    g = self._g(rec["axes"][0]["grid"] - 1)
+                    xs = [(g.x(c[0], self.stats_cls), w, k) for (c, w, k) in gh]
+                    W = sum(w * k for _x, w, k in xs)
+                    S1 = sum(w * k * x for x, w, k in xs)
+                    S2 = sum(w * k * x * x for x, w, k in xs)
+                    st = real[i].statistics
+                    tol = lambda a, b: abs(float(a) - b) <= 1e-12 * max(1.0, abs(b))
+                    if not (tol(st.weight, W) and tol(st.sum, S1) and tol(st.sum2, S2) and float(st.min) == min(x for x, _w, _k in xs)
+                            and float(st.max) == max(x for x, _w, _k in xs)):
+                        bad.append("stats")
+                        det[f"{i}.stats"] = {"expected": {"weight": W, "sum": S1, "sum2": S2}, "observed": repr(st)}
             except EXC as ex:
                 bad.append("snapshot")
                 det[f"{i}.snapshot"] = f"{type(ex).__name__}: {ex}"
